@@ -11,7 +11,12 @@ FIXED = [
     ("model G1 input Real u; Real V; Real Q; equation der(V) = Q; Q = u; end G1;", "G1"),
     ("model G2 Real s; Real a; Real b; Real c; equation der(s) = c; a = s; b = a; c = -b; end G2;", "G2"),
     ("model G3 Real s; Real _t; Real y; equation der(s) = y; _t = 2 * s; y = _t + 1; end G3;", "G3"),
+    # an eliminable variable defined by two equations of a regular system: eliminated once, the second equation is kept
+    ("model G4 Real x; Real z; Real _v; equation der(x) = -x; _v = 2 * x + 1; _v = 3 * z; end G4;", "G4"),
+    ("model G5 Real y; Real w; Real _s; equation der(_s) = -y; _s = 3 * y; _s = 2 * w; end G5;", "G5"),
+    ("model G6 Real x; Real _a; Real _b; equation der(x) = _a; _a = _b; _b = x + 1; _a = 2 * x - _b + 1; end G6;", "G6"),
 ]
+MUST_SIMPLIFY = {"G0", "G1", "G2", "G3", "G4", "G5", "G6"}
 
 
 def count(m):
@@ -29,7 +34,10 @@ def judge(txt, name, opts):
     m, o = S.build(txt, name, opts)
     try:
         m.simplify(o)
-    except BaseException:  # noqa
+    except BaseException as e:  # noqa
+        if name in MUST_SIMPLIFY:
+            # these regular models are within every option's supported subset: a failure to simplify means the residual cannot be built
+            return "simplify raised %s: %s" % (type(e).__name__, str(e)[:160]), "fail"
         return None, "reported"
     try:
         u1, e1, f = count(m)
@@ -64,7 +72,7 @@ def main():
             break
     if payload.get("mode") == "bounded":
         print(json.dumps({"performed": True, "cases": n, "distinct_nontrivial": nontrivial, "failures": failures,
-                          "rule": "square generated models (and fixed ones with an algebraic variable aliased to a derivative AND a state, to an input, chains, eliminable variables) x option combinations: len(states)+len(alg_states) - residual length stays 0 and dae_residual_function is built without free symbols",
+                          "rule": "square generated models (and fixed ones with an algebraic variable aliased to a derivative AND a state, to an input, chains, eliminable variables, an eliminable variable defined by two equations) x option combinations: len(states)+len(alg_states) - residual length stays 0 and dae_residual_function is built without free symbols",
                           "bound": "%d model/option pairs" % n}))
     else:
         f = failures[0] if failures else None
